@@ -27,7 +27,7 @@ ASSUMPTIONS = ['mpmath 1.3 at 50/80 digits gives f^(k)(x0)/k! (self-consistency 
                'tolerance TOL x majorant, majorant = sum_k |c_k| |dx|^k (cancellation-safe)']
 TOL = 1e-12          # x majorant; measured worst on the current tree: <= 6e-15 for all functions except the two below
 # (reported per function in the evidence as max_scaled_error[...]); SciPy's hyperu itself is only accurate to ~1e-11
-TOL_OVERRIDE = {'hyperu': 1e-8, 'expit': 1e-10}
+TOL_OVERRIDE = {'hyperu': 1e-8, 'expit': 1e-10, 'dawsn_large': 1e-4}
 
 
 def tol_for(name):
@@ -55,29 +55,33 @@ def table():
 
     def add(name, f, g, pts, cpts=None, maxD=None):
         T.append({'name': name, 'f': f, 'g': g, 'pts': pts, 'cpts': cpts, 'maxD': maxD})
-    add('exp', algopy.exp, mp.exp, SM, SMW)
-    add('expm1', algopy.expm1, mp.expm1, SM, SMW)
-    add('log', algopy.log, mp.log, POSP, POSC)
-    add('log1p', algopy.log1p, mp.log1p, [-0.5, 0.0, 1.5], POSC)
-    add('sqrt', algopy.sqrt, mp.sqrt, POSP, POSC)
+    add('exp', algopy.exp, mp.exp, SM + [-30.0, 30.0], SMW)
+    add('expm1', algopy.expm1, mp.expm1, SM + [1e-9, -30.0], SMW)
+    add('log', algopy.log, mp.log, POSP + [1e-6, 1e6], POSC)
+    add('log1p', algopy.log1p, mp.log1p, [-0.5, 0.0, 1.5, 1e-9, 1e6], POSC)
+    add('sqrt', algopy.sqrt, mp.sqrt, POSP + [1e-6, 1e6], POSC)
     add('sin', algopy.sin, mp.sin, SM, SMW)
     add('cos', algopy.cos, mp.cos, SM, SMW)
     add('tan', algopy.tan, mp.tan, SM, SMW)
     add('arcsin', algopy.arcsin, mp.asin, [-0.7, 0.0, 0.4], [0.3 + 0.3j, 1.5 + 0.5j, -1.3 - 0.4j])
     add('arccos', algopy.arccos, mp.acos, [-0.7, 0.0, 0.4], [0.3 + 0.3j, 1.5 + 0.5j, -1.3 - 0.4j])
-    add('arctan', algopy.arctan, mp.atan, SM, [0.7 + 0.3j, -0.4 + 1.6j])
-    add('sinh', algopy.sinh, mp.sinh, SM, SMW)
-    add('cosh', algopy.cosh, mp.cosh, SM, SMW)
-    add('tanh', algopy.tanh, mp.tanh, SM, SMW)
-    add('reciprocal', algopy.reciprocal, lambda x: 1 / x, [-1.2, 0.7], SMC)
+    add('arctan', algopy.arctan, mp.atan, SM + [1e4, -1e6], [0.7 + 0.3j, -0.4 + 1.6j])
+    add('sinh', algopy.sinh, mp.sinh, SM + [20.0], SMW)
+    add('cosh', algopy.cosh, mp.cosh, SM + [-20.0], SMW)
+    add('tanh', algopy.tanh, mp.tanh, SM + [3.0, -4.0], SMW)
+    add('reciprocal', algopy.reciprocal, lambda x: 1 / x, [-1.2, 0.7, 1e-4, 1e4], SMC)
     add('square', algopy.square, lambda x: x * x, SM, SMW)
     add('negative', algopy.negative, lambda x: -x, SM, SMW)
-    add('erf', sp.erf, mp.erf, SM, [0.7 + 0.3j])
-    add('erfi', sp.erfi, mp.erfi, SM, [0.7 + 0.3j])
+    add('erf', sp.erf, mp.erf, SM + [5.0, -6.0], [0.7 + 0.3j])
+    add('erfi', sp.erfi, mp.erfi, SM + [4.0], [0.7 + 0.3j])
     add('dawsn', sp.dawsn, dawson, SM, [0.7 + 0.3j])
+    # large arguments: the library's recurrence F' = 1 - 2 x F loses ~ (2 x^2) eps per order (measured 5e-4 at order 4, x = 30);
+    # judged with a loose tolerance up to order 3 only - enough to tell a finite, essentially right value from nan / garbage
+    add('dawsn_large', sp.dawsn, dawson, [8.0, 30.0, -40.0], None, maxD=4)
     add('logit', sp.logit, lambda x: mp.log(x / (1 - x)), [0.2, 0.5, 0.8])
-    add('expit', sp.expit, lambda x: 1 / (1 + mp.exp(-x)), SM)
-    add('gammaln', sp.gammaln, mp.loggamma, [0.5, 1.0, 3.0])
+    add('expit', sp.expit, lambda x: 1 / (1 + mp.exp(-x)), SM + [8.0, -8.0])
+    # log|Gamma| is real-analytic between the non-positive integers as well
+    add('gammaln', sp.gammaln, lambda x: mp.log(abs(mp.gamma(x))), [0.5, 1.0, 3.0, 1e-2, 50.0, -0.5, -2.5])
     add('psi', sp.psi, mp.digamma, [0.5, 1.0, 3.0])
     for m in (0, 1, 2):
         add('polygamma(%d)' % m, (lambda x, m=m: sp.polygamma(m, x)), (lambda x, m=m: mp.polygamma(m, x)), [0.5, 1.0, 3.0], maxD=7)
